@@ -563,6 +563,23 @@ func (P) Exec(c *harness.Case) *harness.Outcome {
 				}
 				return o
 			}
+			aborted := false
+			for _, r := range list {
+				if r.Aborts() && (op.K == "load" || (op.K == "loadres" && r.Res == op.E)) {
+					aborted = true
+				}
+			}
+			if aborted {
+				// the load reached a generator that panics: it reports an error and nothing has changed - not the rules
+				// in force, not what the getters report (checkState below compares with the state before)
+				o.Probe("load_abandoned_by_a_panicking_generator")
+				if lerr == nil {
+					o.Fail("C13.abandoned-load-reported-success", step, "%s load of %s with a rule whose generator panics returned no error", op.K, rs.ModuleName[m])
+					return o
+				}
+				last = &lastCall{m, op.K, res, list, lerr}
+				break
+			}
 			apply(m, op.K, res, list)
 			last = &lastCall{m, op.K, res, list, lerr}
 		case "editload":
@@ -593,6 +610,21 @@ func (P) Exec(c *harness.Case) *harness.Outcome {
 			harness.Call(o, "C13.load-panicked", step, func() { _, lerr = callEdit(last.m, last.kind, last.res, i, cand[0]) })
 			if o.Failed() {
 				return o
+			}
+			abortedEdit := false
+			for _, r := range nl {
+				if r.Aborts() && (last.kind == "load" || (last.kind == "loadres" && rs.ResName(r.Res) == last.res)) {
+					abortedEdit = true
+				}
+			}
+			if abortedEdit {
+				o.Probe("load_abandoned_by_a_panicking_generator")
+				if lerr == nil {
+					o.Fail("C13.abandoned-load-reported-success", step, "reload of the edited %s list with a rule whose generator panics returned no error", rs.ModuleName[last.m])
+					return o
+				}
+				last = &lastCall{last.m, last.kind, last.res, nl, lerr}
+				break
 			}
 			apply(last.m, last.kind, last.res, nl)
 			last = &lastCall{last.m, last.kind, last.res, nl, lerr}
